@@ -9,6 +9,7 @@ def main : IO UInt32 :=
     | "c03" => C03.checkEng params lines
     | "c03burst" => C03.checkEng params lines
     | "c03two" => C03.checkEng params lines
+    | "c03ctx" => C03.checkEng params lines
     | "c01patient" => C03.checkEng params lines
     | "c03bnd" => C03.checkBnd params lines
     | _ => { bad := [s!"unknown family {family}"] })
